@@ -109,7 +109,11 @@ def cmd_check(args):
 
     # ---- expected obligation set
     expected_all = load_json(os.path.join(HERE, "expected_obligations.json"), {})
-    names_now = sorted(n for n, k in kinds.items() if k != "canary")
+    def base_name(n):
+        head, _, cfgl = n.partition("@")
+        return head.split("#")[0] + ("@" + cfgl if cfgl else "")
+    # only clause-named obligations are pinned (bounds/assert names carry source text and may change harmlessly)
+    names_now = sorted({base_name(n) for n, k in kinds.items() if k in ("post", "pre", "inv.init", "inv.preserve")})
     if args.update_expected:
         expected_all[pid] = names_now
         with open(os.path.join(HERE, "expected_obligations.json"), "w") as f:
@@ -141,6 +145,8 @@ def cmd_check(args):
             failed.append((u, ob, v))
     from pyvc import replay as rp
     handled_known = set()
+    MAX_REFUTE = int(os.environ.get("PYVC_MAX_REFUTE", "8"))
+    n_refuted = 0
     for u, ob, v in failed:
         kf = next((k for k in known_for_pid if k.get("obligation") == ob["name"]), None)
         if kf is not None:
@@ -148,11 +154,16 @@ def cmd_check(args):
             continue
         info = {"property": pid, "function": u["key"], "config": u["label"], "obligation": ob["name"],
                 "verdict": v, "confirmed": False}
-        try:
-            info.update(rp.refute(pid, u["key"], u["label"], ob["name"], run.REPO_SRC, replay_dir))
-        except Exception:
-            import traceback
-            info["note"] = "refutation machinery failed: " + traceback.format_exc(limit=4)
+        if n_refuted < MAX_REFUTE:
+            n_refuted += 1
+            try:
+                info.update(rp.refute(pid, u["key"], u["label"], ob["name"], run.REPO_SRC, replay_dir, seed=seed))
+            except Exception:
+                import traceback
+                info["note"] = "refutation machinery failed: " + traceback.format_exc(limit=4)
+        else:
+            info["note"] = (f"not individually replayed: more than {MAX_REFUTE} obligations failed in this run; "
+                            f"solver verdict attached")
         info["verdict"] = v
         info["repo"] = run.REPO
         safe = ob["name"].replace("/", "_").replace(" ", "_").replace(":", "_")[:150]
